@@ -272,14 +272,14 @@ func checkC11(c *Ctx) {
 			r.Bad("C11/ATOMIC/index", cons, site, "os.Rename(%s, %s): the index must be installed from a derived temporary path onto mbox.indexPath", rn.class[0], rn.class[1])
 			continue
 		}
-		// the temp file: Create(derived(index)) in the same function dominating the rename,
-		// directly or inside a helper that reports success only after the creation succeeded
-		evs := m.events(rn.fn)
+		// the temp file: Create(derived(index)) in the function that renames (the rename and the
+		// write may both sit in a helper taking the path as a parameter: the helper is then
+		// examined with the arguments of the call chain), executed and successful on every
+		// path to the rename — directly or inside a helper that reports success only after the
+		// operation succeeded
+		anchor := ssa.Instruction(rn.prim)
+		evs := m.eventsCtx(rn.prim.Parent(), rn.chain)
 		good := func(ev fsEv) bool {
-			// the operation happened and succeeded on every path to the rename
-			if !eng.Dominates(ev.at, rn.call) {
-				return false
-			}
 			if !ev.direct && !ev.onSuccess {
 				return false
 			}
@@ -288,7 +288,11 @@ func checkC11(c *Ctx) {
 				return false
 			}
 			ev2 := errResultOf(c)
-			return ev2 == nil && ev.direct && ev.op == "NewWriter" || ev2 != nil && knownNilAt(ev2, rn.call.Block())
+			if eng.Dominates(ev.at, anchor) && (ev2 == nil && ev.direct && ev.op == "NewWriter" || ev2 != nil && knownNilAt(ev2, anchor.Block())) {
+				return true
+			}
+			// path-sensitive: an error variable re-assigned along the way
+			return eng.SucceededBefore(ev.at, ev2, anchor)
 		}
 		var create *fsEv
 		for i, ev := range evs {
@@ -443,22 +447,36 @@ func (c *Ctx) rawWriteSeq(m *fsModel, fn *ssa.Function, anchor ssa.Instruction) 
 		return create, "no create/copy/flush sequence for the raw file"
 	}
 	fileV := fileOfCreate(create)
+	// succeeded: executed and successful on every path to the anchor — by dominance and a
+	// dominating nil test, or path-sensitively (an error variable re-assigned along the way:
+	// `size, err := io.Copy(w, r); if err == nil { err = w.Flush() }; if err != nil { … return }`)
+	succeeded := func(c *ssa.Call) bool {
+		e := errResultOf(c)
+		if e == nil {
+			return false
+		}
+		if eng.Dominates(c, anchor) && knownNilAt(e, anchor.Block()) {
+			return true
+		}
+		return c.Parent() == anchor.Parent() && eng.SucceededBefore(c, e, anchor)
+	}
 	for _, ev := range evs {
 		c, ok := ev.at.(*ssa.Call)
 		if !ok || ev.op != "Close" || !usable(ev) || !sameFile(ev, *createEv, fileV) {
 			continue
 		}
-		if e := errResultOf(c); e != nil && eng.Dominates(c, anchor) && knownNilAt(e, anchor.Block()) {
+		if succeeded(c) {
 			closeC = c
 		}
 	}
-	errCopy, errFlush := errResultOf(copyC), errResultOf(flush)
+	inOrder := eng.Dominates(create, copyC) && eng.Dominates(copyC, flush) && eng.Dominates(flush, anchor) ||
+		create.Parent() == anchor.Parent() && eng.OrderedBefore([]ssa.Instruction{create, copyC, flush}, anchor)
 	switch {
-	case !(eng.Dominates(create, copyC) && eng.Dominates(copyC, flush) && eng.Dominates(flush, anchor)):
+	case !inOrder:
 		return create, "create → copy → flush → index update are not in dominance order: the index can list a message whose body is not fully on disk"
-	case errCopy == nil || !knownNilAt(errCopy, anchor.Block()):
+	case !succeeded(copyC):
 		return create, "the index update is reachable after a failed io.Copy"
-	case errFlush == nil || !knownNilAt(errFlush, anchor.Block()):
+	case !succeeded(flush):
 		return create, "the index update is reachable after a failed Flush"
 	case closeC == nil:
 		return create, "the index update is not dominated by a successful Close of the raw file"
